@@ -45,3 +45,40 @@ Example c35_once_nonvacuous :
   let s := run [Enq (1,10); Enq (2,10); Once true; Once false; Once false] in
   log s = [(1,10); (2,10)] /\ txq s = [].
 Proof. vm_compute. split; reflexivity. Qed.
+
+(* ---- non-transient send errors (a socket.error that is not in the transient list propagates) ---- *)
+Require Import V.C35.Fatal.
+
+(* A pass ended by an exception on the send of packet p loses p and nothing else: the queue was pre ++ p :: post,
+   and sent ++ queue-after is, destination by destination and in queue order, exactly pre ++ post; in particular
+   the packets deferred by transient failures earlier in the pass are still queued, in front of the rest. *)
+Theorem exception_loses_only_its_packet : forall q orc q' s p,
+  servicex q orc = (q', s, Some p) ->
+  exists pre post, q = pre ++ p :: post /\
+    (forall d, to d (s ++ q') = to d (pre ++ post)) /\ Permutation (s ++ q') (pre ++ post).
+Proof. exact servicex_fatal. Qed.
+Print Assumptions exception_loses_only_its_packet.
+
+Theorem exception_keeps_untouched_rest_behind_deferred : forall q orc q' s p,
+  servicex q orc = (q', s, Some p) ->
+  exists pre post l1, q = pre ++ p :: post /\ q' = l1 ++ post /\ Permutation (s ++ l1) pre.
+Proof. exact servicex_fatal_rest. Qed.
+Print Assumptions exception_keeps_untouched_rest_behind_deferred.
+
+(* every history with exceptions: sent + queued + dropped-by-exception is exactly what was ever queued *)
+Theorem nothing_lost_but_raising_packets : forall ops,
+  Permutation (xlog (runx ops) ++ xq (runx ops) ++ xdropped (runx ops)) (xqueued (runx ops)).
+Proof. exact runx_inv. Qed.
+Print Assumptions nothing_lost_but_raising_packets.
+
+(* and a history without non-transient errors is a history of the basic machine above *)
+Theorem no_exception_is_basic_machine : forall ops, forallb fatal_free ops = true ->
+  xq (runx ops) = txq (run (map op_of ops)) /\ xlog (runx ops) = log (run (map op_of ops)) /\
+  xqueued (runx ops) = queued (run (map op_of ops)) /\ xdropped (runx ops) = [].
+Proof. exact runx_run. Qed.
+Print Assumptions no_exception_is_basic_machine.
+
+(* non-vacuity: a1 deferred (transient), b1 raises, a2 and c1 not yet attempted *)
+Example c35_exception_nonvacuous :
+  servicex [(1,10); (2,20); (3,10); (4,30)] [OTrans; OFatal] = ([(1,10); (3,10); (4,30)], [], Some (2,20)).
+Proof. vm_compute. reflexivity. Qed.
